@@ -152,9 +152,87 @@ func genNumericValues(t *rapid.T, typ io.EnumElementType, n int, label string) i
 	return hx.GenColumnBits(t, typ, n, label)
 }
 
+// c14PairSweep is the stratified part of C14: EVERY ordered pair (sent type, bucket type) of the
+// ten numeric wire types, with the edge values of the sent type (0, 1, sign-bit and all-ones
+// patterns of every width, float specials, fractions), written through WriteCSM and read back.
+// The 100 pairs are divided among the shards; the random part below covers multi-bucket requests
+// and the other edits.
+func c14PairSweep(t *testing.T, rec *hx.Rec) {
+	shard, nsh := envInt("VERIF_SHARD", 0), envInt("VERIF_NSHARDS", 1)
+	root := hx.ScratchDir("c14s")
+	defer os.RemoveAll(root)
+	in := hx.NewInst(root, hx.InstOpts{})
+	defer in.Close()
+	base := int64(1583020800)
+	pi := 0
+	for _, src := range hx.NumericTypes {
+		for _, dst := range hx.NumericTypes {
+			pi++
+			if pi%nsh != shard%nsh {
+				continue
+			}
+			var col interface{}
+			if src == io.FLOAT32 || src == io.FLOAT64 {
+				vals := []float64{0, 1, -1, 0.5, -2.75, 127, 127.9, 128, 255, 256, 32767.5, 65535.9, 65536, 2147483647, 2147483648, 4294967295.5,
+					16777217, 1e9, -1e9, 1e18, -1e18, 9.3e18, 1.9e19, 3e38, 1e-30}
+				if src == io.FLOAT32 {
+					o := make([]float32, len(vals))
+					for i, v := range vals {
+						o[i] = float32(v)
+					}
+					col = o
+				} else {
+					col = append(vals, 1e300, -1e300)
+				}
+			} else {
+				col = hx.ColumnFromBits(src, hx.EdgeBits())
+			}
+			n := len(hx.ColBytes(col)) / hx.TypeSize(src)
+			b := &hx.Bucket{Sym: fmt.Sprintf("P%d", pi), TF: "1Min", Group: "G", Schema: []io.DataShape{{Name: "V", Type: dst}}}
+			if err := in.Create(b); err != nil {
+				t.Fatalf("create: %v", err)
+			}
+			r := &hx.Rows{Names: []string{"V"}, Cols: []interface{}{col}}
+			for j := 0; j < n; j++ {
+				r.Epoch = append(r.Epoch, base+int64(j)*60)
+			}
+			if err := in.WriteVia(b, r, 1); err != nil {
+				t.Fatalf("write of a %s column into a %s bucket column rejected: %v", hx.TypeStr[src], hx.TypeStr[dst], err)
+			}
+			got, err := in.QueryAll(b)
+			if err != nil || got.Len() != n {
+				t.Fatalf("%s -> %s: query: %v (%d rows, want %d)", hx.TypeStr[src], hx.TypeStr[dst], err, got.Len(), n)
+			}
+			if cerr := hx.CheckSchema(b, got); cerr != nil {
+				t.Fatalf("%s -> %s: %v", hx.TypeStr[src], hx.TypeStr[dst], cerr)
+			}
+			for j := 0; j < n; j++ {
+				alts := expectedConv(col, j, dst)
+				if alts == nil {
+					rec.Class("conversion-implementation-defined(not asserted)", 1)
+					continue
+				}
+				gotB := hx.RowBytes(&hx.Rows{Cols: []interface{}{got.Cols[0]}}, j)
+				ok := false
+				for _, a := range alts {
+					ok = ok || string(a) == string(gotB)
+				}
+				if !ok {
+					f, nn, uu, kind := numAt(col, j)
+					t.Fatalf("sent %s value %v/%d/%d (%s) into a %s column: stored as %x, want one of %x", hx.TypeStr[src], f, nn, uu, kind, hx.TypeStr[dst], gotB, alts)
+				}
+			}
+			rec.Case(fmt.Sprint("pair-sweep ", hx.TypeStr[src], "->", hx.TypeStr[dst]), "pair-sweep")
+		}
+	}
+}
+
 // C14 Writes are validated against the bucket schema.
 func TestC14(t *testing.T) {
 	rec := hx.R("C14")
+	if os.Getenv("VERIF_REPLAY") == "" {
+		c14PairSweep(t, rec)
+	}
 	rapid.Check(t, func(t *rapid.T) {
 		variable := rapid.IntRange(0, 3).Draw(t, "variable") == 0
 		tf := rapid.SampledFrom([]string{"1Min", "5Min", "1H", "1D"}).Draw(t, "tf")
